@@ -13,7 +13,7 @@ mkdir -p "$SCR/repo" "$SCR/out"
 rsync -a --exclude .git /repo/ "$SCR/repo/"
 ( cd "$SCR/repo" && patch -p1 -s < "$PATCH" ) || { echo "SELFTEST $ID $(basename $PATCH): patch does not apply"; exit 3; }
 if [ "${SKIP_BASELINE:-0}" != 1 ]; then
-  ( cd "$SCR/repo" && go build ./... && go test -vet=off -count=1 ./... 2>&1 ) > "$SCR/test.log" 2>&1
+  ( cd "$SCR/repo" && go build ./... && timeout 400 go test -vet=off -count=1 -timeout 180s ./... 2>&1 ) > "$SCR/test.log" 2>&1
   if grep -E '^(--- FAIL|FAIL|panic:)' "$SCR/test.log" | grep -v -E 'TestRunInteractive|^FAIL$|FAIL\s+github.com/mattn/anko\s' | grep -q .; then
     echo "SELFTEST $ID $(basename $PATCH): baseline tests FAIL with the patch (not a valid mutant)"; grep -E '^(--- FAIL|FAIL|panic:)' "$SCR/test.log" | head; exit 4
   fi
